@@ -53,6 +53,10 @@ Why(ev) ==
        \o (IF \E i \in DOMAIN o.spell : ~(o.spell[i].back.ok /\ Datum(ev.kind, o.spell[i].back.v) = d)
            THEN <<"spelling " \o o.spell[CHOOSE i \in DOMAIN o.spell : ~(o.spell[i].back.ok /\ Datum(ev.kind, o.spell[i].back.v) = d)].name>>
            ELSE <<>>)
+       \* a byte-level respelling (every string \u-escaped, white space between tokens) is the same document: the
+       \* decoder must answer as it does for the plain bytes
+       \o (IF "escdiffers" \in DOMAIN o /\ o.escdiffers # <<>>
+           THEN <<"the \\u-escaped spelling of the same document decodes differently: " \o o.escdiffers[1]>> ELSE <<>>)
        \o (IF \E i \in DOMAIN o.typed : ~(o.typed[i].back.ok /\ FromWire(o.typed[i].back.v) = d)
            THEN <<"typed decoder: " \o o.typed[CHOOSE i \in DOMAIN o.typed : ~(o.typed[i].back.ok /\ FromWire(o.typed[i].back.v) = d)].name>>
            ELSE <<>>)
